@@ -31,7 +31,7 @@ def run(ctx):
     r.not_decided = NOT_DECIDED
     r.rule("R18.1", "every token yielded once; only StartTag/EmptyTag data is replaced", floor=10)
     r.rule("R18.2", "the new mapping receives every (key, value) of sorted(token['data'].items(), key=K) under its own key", floor=3)
-    r.rule("R18.3", "sort key = (namespace or '', local name)", floor=2)
+    r.rule("R18.3", "sort key = (namespace or '', local name)", floor=5)
     f = repo.func(REL, "Filter.__iter__")
     body = [s for s in f.node.body if not (isinstance(s, ast.Expr) and isinstance(s.value, ast.Constant))]
     if not (len(body) == 1 and isinstance(body[0], ast.For) and norm(body[0].iter) == "base.Filter.__iter__(self)"
@@ -39,6 +39,7 @@ def run(ctx):
         raise AnalysisError("alphabeticalattributes Filter.__iter__ is not a single loop over the source")
     tok = body[0].target.id
     rebuild = []
+    direct = []
 
     def stmt_hook(st, out, interp):
         if isinstance(st, ast.For):
@@ -53,15 +54,41 @@ def run(ctx):
         ys = [e for e in res.effects if isinstance(e.node, ast.Expr) and isinstance(e.node.value, ast.Yield)]
         stores = [e for e in res.effects if isinstance(e.node, ast.Assign) and norm(e.node.targets[0]).startswith(tok + "[")]
         touched = bool(stores) or any(e.text == "rebuild" for e in res.effects)
-        ok = len(ys) == 1 and norm(ys[0].node.value.value) == tok and res.effects[-1] is ys[0]
+        passed = len(ys) == 1 and norm(ys[0].node.value.value) == tok and res.effects[-1] is ys[0]
+        data_stores = [s for s in stores if norm(s.node.targets[0]) == "%s['data']" % tok]
         if ty in ("StartTag", "EmptyTag"):
-            ok = ok and [norm(s.node) for s in stores] == ["%s['data'] = attrs" % tok]
+            shape = len(stores) == 1 and len(data_stores) == 1 and (
+                isinstance(data_stores[0].node.value, ast.Name) or
+                (isinstance(data_stores[0].node.value, ast.Call) and norm(data_stores[0].node.value.func) in ("OrderedDict", "dict")))
+            if shape and not isinstance(data_stores[0].node.value, ast.Name):
+                direct.append(data_stores[0].node)
+            r.idiom("R18.1", passed and shape, "type=%s" % ty, f.where, "alphabetical filter on a %s token: yields=%d stores=%s" % (
+                ty, len(ys), [s.text for s in stores]),
+                wrong=[(not passed, "alphabetical filter: a %s token is not passed on exactly once, after its attributes were rebuilt" % ty),
+                       (not stores and not touched, "alphabetical filter: the attributes of a %s token are not sorted" % ty),
+                       (bool(stores) and not data_stores, "alphabetical filter: a %s token is modified other than in its attribute mapping: %s"
+                        % (ty, [s.text for s in stores]))],
+                detail={"type": ty, "data_replaced": bool(stores)})
         else:
-            ok = ok and not touched
-        r.check("R18.1", ok, "type=%s" % ty, f.where, "alphabetical filter on a %s token: yields=%d stores=%s" % (
-            ty, len(ys), [s.text for s in stores]), detail={"type": ty, "data_replaced": bool(stores)})
+            r.check("R18.1", passed and not touched, "type=%s" % ty, f.where, "alphabetical filter on a %s token: yields=%d stores=%s" % (
+                ty, len(ys), [s.text for s in stores]), detail={"type": ty, "data_replaced": bool(stores)})
     # R18.2
     loops = {id(x): x for x in rebuild}
+    if not loops and direct:
+        # direct form: token['data'] = OrderedDict(sorted(token['data'].items(), key=K)) -- the constructor inserts each pair
+        # under its own key, in iteration order
+        call = direct[0].value
+        it = call.args[0] if len(call.args) == 1 else None
+        ok_iter = (isinstance(it, ast.Call) and norm(it.func) == "sorted" and len(it.args) == 1 and
+                   norm(it.args[0]) == "%s['data'].items()" % tok and
+                   [k.arg for k in it.keywords] == ["key"] and norm(it.keywords[0].value) == "_attr_key")
+        r.idiom("R18.2", ok_iter, "iterates-sorted-items", "%s:%d" % (REL, direct[0].lineno),
+                "the new mapping is not built from sorted(token['data'].items(), key=_attr_key): %s" % (norm(it) if it is not None else "?"))
+        r.ok("R18.2", "inserts-under-own-key", "%s:%d" % (REL, direct[0].lineno), detail={"form": "mapping constructor"})
+        r.idiom("R18.2", norm(call.func) in ("OrderedDict", "dict"), "fresh-ordered-mapping", f.where,
+                "the new attribute mapping is not a fresh insertion-ordered mapping")
+        key_rule(ctx)
+        return
     if len(loops) != 1:
         raise AnalysisError("alphabeticalattributes: rebuild loop not found")
     lp = list(loops.values())[0]
@@ -83,17 +110,29 @@ def run(ctx):
     pre = [s for s in ast.walk(f.node) if isinstance(s, ast.Assign) and norm(s.targets[0]) == "attrs"]
     r.idiom("R18.2", len(pre) == 1 and norm(pre[0].value) in ("OrderedDict()", "{}", "dict()"), "fresh-ordered-mapping",
             f.where, "the new attribute mapping is not a fresh insertion-ordered mapping")
-    # R18.3
+    key_rule(ctx)
+
+
+def key_rule(ctx):
+    """R18.3: the sort key is decided by evaluating the (pure) key function on representative attribute items."""
+    r = ctx.r
+    repo, ce = ctx.repo, ctx.ce
     k = repo.func(REL, "_attr_key")
-    rets = [s for s in k.node.body if isinstance(s, ast.Return)]
     a = k.params()[0]
-    good = len(rets) == 1 and norm(rets[0].value) in ("(%s[0][0] or '', %s[0][1])" % (a, a),
-                                                      "('' if %s[0][0] is None else %s[0][0], %s[0][1])" % (a, a, a))
-    keytxt = norm(rets[0].value) if len(rets) == 1 else ""
-    simple = len(rets) == 1 and len(k.node.body) <= 2 and not any(isinstance(n, ast.Assign) for n in k.node.body)
-    r.idiom("R18.3", good, "key-shape", k.where,
-            "the sort key is `%s`; it must map a None namespace to '' and then use the local name" % (keytxt or "?"),
-            wrong=[(simple and not good, None)], detail={"key": keytxt})
+    interp = MiniInterp(ce, k.module)
+    samples = [((None, "b"), "1"), (("http://www.w3.org/1999/xlink", "href"), "2"), (("", "c"), "3"), ((None, ""), "4")]
+    for item in samples:
+        key = "key[%r]" % (item[0],)
+        try:
+            res = interp.run(k.node.body, {a: item})
+            got = res.value
+        except AnalysisError as e:
+            r.idiom("R18.3", False, key, k.where, "the sort key function is not evaluable (%s)" % str(e)[:80])
+            continue
+        exp = (item[0][0] or "", item[0][1])
+        r.check("R18.3", got == exp, key, k.where,
+                "the sort key of attribute %r is %r; it must be (namespace or '', local name) = %r so that un-namespaced attributes "
+                "sort together and None never meets a string" % (item[0], got, exp), detail={"item": item[0], "key": got})
     calls = [norm(n) for n in ast.walk(k.node) if isinstance(n, ast.Call)]
     r.check("R18.3", not calls, "key-pure", k.where, "the sort key calls %s: it must depend on the attribute key only" % calls)
 
